@@ -220,7 +220,7 @@ fn verif_sweep_c07_every_violation_in_every_content_state() {
     for &state in &[State::Idle, State::AfterMethod, State::AfterHeader, State::AfterPartOfBody] {
         for &v in &ALL {
             for &t in &[false, true] {
-                run(state, v, t);
+                with_watchdog(format!("state={:?} violation={:?} traffic={}", state, v, t), 40, move || run(state, v, t));
                 count += 1;
             }
         }
